@@ -716,6 +716,24 @@ def expected_initial(spec, meth, values):
         out.append((("T",), H.T, Tg))
     if spec.t0[0] == "free":
         out.append((("t0",), H.t0, t0g))
+    # algebraic variables under the shooting methods are not decision variables: their guess is the start value Z0[k] that
+    # the DAE integrator's root finder gets on interval k (physical units; time expressions at the interval's start time)
+    if spec.method != "DC" and spec.algebraics and getattr(meth, "Z0", None):
+        off = 0
+        for i, n in enumerate(spec.algebraics):
+            val = last.get(("z", i))
+            for k in range(N if spec.method == "MS" else 1):
+                if meth.Z0[k] is None:
+                    break
+                h = ca.MX(meth.Z0[k])[off:off + n]
+                if val is None:
+                    exp = ca.DM.zeros(n)
+                elif isinstance(val, E):
+                    exp = val.on(lambda a, k=k: {"t": ts[k]}[a])
+                else:
+                    exp = column(val, n, k, k, True)
+                out.append((("z", i, "rootfinder-start", k), h, exp))
+            off += n
     # helper states of direct collocation
     if spec.method == "DC":
         m = meth
